@@ -849,13 +849,15 @@ class PolyhedralTermList(TermList):  # noqa: WPS338
         """
         Set aside the terms that mention no variable (their coefficients cancelled or were zero).
 
-        Such a term is `0 <= c`: it holds everywhere when c >= 0 and nowhere otherwise.
+        Such a term is `0 <= c`: it holds everywhere when c >= 0 and nowhere otherwise. What is left of cancelling
+        floating-point coefficients (`0 <= 0.7 - 0.1 * 7.0`, which is -1.1e-16) is not a contradiction: the constant is
+        compared with the tolerance of the containment test.
 
         Returns:
             The terms that mention a variable, and whether a term without variables makes the list unsatisfiable.
         """
         with_variables = [term for term in self.terms if term.vars]
-        unsatisfiable = any(term.constant < 0 for term in self.terms if not term.vars)
+        unsatisfiable = any(term.constant < -CONTAINMENT_TOLERANCE for term in self.terms if not term.vars)
         return PolyhedralTermList(with_variables), unsatisfiable
 
     def is_empty(self) -> bool:
